@@ -115,7 +115,7 @@ Proof. vm_compute. auto. Qed.
    from the current source on every run (Generated/Kernels.v); each tie states that the translated
    function equals the model definition used above, on the whole range of the Go types
    (Generated/KernelTie.v; `True` for a kernel the translator reports as not translated). ---- *)
-From BS Require Import Generated.KernelTie Proofs.KernelEquivG.
+From BS Require Import Generated.KernelTie Proofs.KTie_on_disk_size Proofs.KTie_within.
 
 Theorem C12_kernel_tie_on_disk_size : tie_on_disk_size.
 Proof. exact k_on_disk_size_tie. Qed.
